@@ -4,6 +4,7 @@
 package life
 
 import (
+	"errors"
 	"encoding/json"
 	"fmt"
 	"strings"
@@ -39,7 +40,7 @@ var c12states = []string{"idle", "inbound-q1-open", "inbound-q2-open", "outbound
 // causes that strike an accepted connection
 var c12causes = []string{"DISCONNECT", "drop", "read-error", "malformed-frame", "oversized-frame", "second-CONNECT", "server-only-packet",
 	"keepalive-expiry", "takeover-clean", "takeover-unclean", "backend-close", "send-failure", "engine-close", "token-timeout",
-	"DISCONNECT-then-drop", "malformed-then-DISCONNECT"}
+	"DISCONNECT-then-drop", "malformed-then-DISCONNECT", "DISCONNECT-close-fails"}
 
 // causes that strike before / instead of acceptance
 var c12pre = []string{"pre:setup-fails", "pre:drop-before-CONNECT", "pre:non-CONNECT-first", "pre:malformed-CONNECT", "pre:connect-timeout", "pre:rejected-credentials", "pre:CONNACK-write-fails", "pre:backend-closing"}
@@ -218,6 +219,12 @@ func will(x *explore.X, pr c12params) {
 		case "DISCONNECT-then-drop":
 			d.Send(packet.NewDisconnect())
 			d.Drop()
+			disconnectProcessed = true
+		case "DISCONNECT-close-fails":
+			// the DISCONNECT is read and processed; closing the connection afterwards reports an error (the peer is gone
+			// already, a final flush fails): the client did disconnect, no will is owed
+			d.BEnd.CloseErr = errors.New("pipe: close failed")
+			d.Send(packet.NewDisconnect())
 			disconnectProcessed = true
 		case "malformed-then-DISCONNECT":
 			d.Raw([]byte{0x30, 0x02, 0x00}) // PUBLISH cut short
